@@ -369,6 +369,35 @@ def run_case(case: dict, ctx: dict) -> dict:
             keys.append("add|%s|%s|%s" % (kind, name, "raised" if gen2 is None else "kept" if not is_user else "added"))
         if raised is not None:
             bump("probes", "addition_raised")
+        # the same additions made on a LIVE environment (add_test / conventional methods on an object), by a caller that catches
+        # the refusal and carries on: a refused addition leaves the environment exactly as it was, however often it is tried
+        live_gen = DSDLCodeGenerator(ns, **kw)
+        live_env = live_gen._env  # pylint: disable=protected-access
+        evaluations += 1
+        for kind, name in adds:
+            if kind == "globals" or not hasattr(live_env, "add_test"):
+                continue
+            coll = getattr(live_env, kind)
+            if name not in coll:
+                continue
+            before = coll.get(name)
+            s_live = sentinels[(kind, name)]
+            for attempt in (1, 2, 3):
+                try:
+                    if kind == "tests":
+                        live_env.add_test(name, s_live)
+                    else:
+                        holder = type("UserFilters", (), {"filter_" + name: staticmethod(s_live) if not isinstance(s_live, type) else s_live})()
+                        live_env.add_conventional_methods_to_environment(holder)
+                    outcome = "accepted"
+                except Exception:  # pylint: disable=broad-except
+                    outcome = "refused"
+                evaluations += 1
+                now = coll.get(name)
+                if now is not before and getattr(now, "func", None) is not getattr(before, "func", before):
+                    violation("addition-on-live-environment-changes-builtin:%s:%s" % (kind, name.split(".")[0] if name.startswith("ln.") else name), {"kind": kind, "name": name, "attempt": attempt, "outcome": outcome, "before": repr(before)[:120], "after": repr(now)[:120], "lang": lang})
+                    break
+            bump("probes", "live_environment_addition_retried")
 
     # ---- resolution: a lookup history on ONE generator, compared with the model after every call
     gen = base_gen
